@@ -287,7 +287,16 @@ class Gen:
 
     def ext_stmt(self, env: dict[str, str], ind: str, d: int) -> list[str]:
         r = self.rnd
-        kind = r.choice(['closure', 'closure', 'lambda_arg', 'lambda_iife', 'dict', 'dict_loop', 'dict_comp', 'tuple', 'enumerate', 'list_ops', 'casts', 'try', 'nested', 'list_comp', 'default_arg', 'str_ops'])
+        if self.opts.get('wide', True) and r.random() < .08:
+            # a call of a function whose signature has eleven entries on one level; the result is typed from its return type
+            if not getattr(self, 'need_wide', False):
+                self.need_wide = self.fresh('wide')
+            self.use('ext_wide')
+            b, v = self.fresh('b'), self.fresh('x')
+            out = ['%s%s = %s(%s, 2.5)' % (ind, b, self.need_wide, ', '.join(self.int_atoms(env, 9))), '%s%s = 1 if %s else 0' % (ind, v, b)]
+            env[v] = INT
+            return out
+        kind = r.choice(['closure', 'closure', 'lambda_arg', 'lambda_iife', 'dict', 'dict_loop', 'dict_comp', 'tuple', 'enumerate', 'list_ops', 'casts', 'try', 'nested', 'list_comp', 'default_arg', 'str_ops', 'dict_views'])
         self.use('ext_' + kind)
         out: list[str] = []
         v = self.fresh('x')
@@ -333,6 +342,12 @@ class Gen:
                 d2, k2, v2 = self.fresh('d'), self.fresh('k'), self.fresh('w')
                 out.append('%s%s = {%s: %s + 1 for %s, %s in %s.items()}' % (ind, d2, k2, v2, k2, v2, dn))
                 out.append("%s%s = %s['x'] + %s['y']" % (ind, v, d2, d2))
+        elif kind == 'dict_views':
+            dn, vs, ks, w, k2 = self.fresh('d'), self.fresh('vs'), self.fresh('ks'), self.fresh('w'), self.fresh('k')
+            out.append('%s%s = {1: %s, 2: %s}' % (ind, dn, e1, e2))
+            out.append('%s%s = [%s for %s in %s.values()]' % (ind, vs, w, w, dn))
+            out.append('%s%s = [%s * 10 for %s in %s.keys()]' % (ind, ks, k2, k2, dn))
+            out.append('%s%s = %s[0] - %s[1] + %s[1]' % (ind, v, vs, vs, ks))
         elif kind == 'tuple':
             t, u, w = self.fresh('t'), self.fresh('u'), self.fresh('s')
             out.append('%s%s = (%s, %s)' % (ind, t, e1, self.atom(STR, env)))
@@ -489,6 +504,8 @@ class Gen:
             for mname, params, rt in c['methods']:
                 entries.append(('%s(%s).%s' % (c['name'], ', '.join(self.lit(t) for _, t in c['cparams']), mname), self.args_for(params), rt))
         head: list[str] = []
+        if getattr(self, 'need_wide', False):
+            head += ['def %s(%s, p9: float) -> bool:' % (self.need_wide, ', '.join('p%d: int' % k for k in range(9))), '\treturn p0 > p8', '']
         if getattr(self, 'need_ap1', False):
             head += ['from collections.abc import Callable', '', 'def ap1(fn: Callable[[int], int], v: int) -> int:', '\treturn fn(v)', '']
         if getattr(self, 'need_dflt', False):
